@@ -108,9 +108,10 @@ using P1 = std::remove_pointer_t<decltype(make_p1(nullptr))>;
 
 // parser 2: custom lexer
 struct word_lexer {
+    int scratch = 0;   // a lexer may keep scratch state in its own members; wherever the library keeps the lexer object, it must not be inside the (immutable) parser
     template<typename Iterator, typename ErrorStream>
     constexpr recognized_term match(match_options, source_point, Iterator start, Iterator end, ErrorStream&) {
-        sp();
+        sp(); ++scratch;
         if (start == end) return recognized_term{};
         char c = *start;
         if (c == ',') return recognized_term(0, 1);
